@@ -74,4 +74,197 @@ theorem C12_value_placed (sys : Sys) (dp : Option String) (kvs : List (DKey × D
   · rw [hdecomp]; exact harr
   · rw [hl', hlen]
 
+
+/-! ## entities, memberships, roles -/
+
+/-- the persons listed by the instances of one group kind, in document order -/
+def listedPersons (g : GroupKind) (kvs : List (DKey × Doc)) : List String := kvs.flatMap (instListed g)
+
+/-- the persons left out of a group kind, in the order of the persons -/
+def leftOut (g : GroupKind) (personsIds : List String) (kvs : List (DKey × Doc)) : List String :=
+  personsIds.filter (fun p => !(listedPersons g kvs).contains p)
+
+/-- **C12_entities.**  One entity per declared instance, ids in declaration order: the persons
+are the keys of the persons object; a declared group kind has its declared instances followed by
+one fresh group per person left out (named after the person, in person order); a group kind the
+document omits has one group per person. -/
+theorem C12_entities (sys : Sys) (dp : Option String) :
+    (∀ (kvs : List (DKey × Doc)) (ids : List String) (ws : List Write),
+      addPersonEntity sys dp (.obj kvs) = .ok (ids, ws) →
+      ids = kvs.map (fun kv => kv.1.text) ∧ ids.length = kvs.length) ∧
+    (∀ (g : GroupKind) (personsIds : List String) (kvs : List (DKey × Doc)) (buf buf' : Buffer) (e : Ent),
+      addGroupEntity sys dp g personsIds (.obj kvs) buf = .ok (e, buf') →
+      e.key = g.key ∧ e.ids = kvs.map (fun kv => kv.1.text) ++ leftOut g personsIds kvs ∧
+      e.count = kvs.length + (leftOut g personsIds kvs).length ∧
+      e.memb.length = personsIds.length ∧ e.roles.length = personsIds.length) ∧
+    (∀ (g : GroupKind) (personsIds : List String) (e : Ent), addDefaultGroupEntity g personsIds = .ok e →
+      e.key = g.key ∧ e.ids = personsIds ∧ e.memb = List.range personsIds.length ∧
+      ∃ r0, g.flatRoles.head? = some r0 ∧ e.roles = List.replicate personsIds.length r0) := by
+  refine ⟨?_, ?_, ?_⟩
+  · intro kvs ids ws h
+    obtain ⟨hi, _⟩ := addPersonEntity_ok h
+    exact ⟨hi, by rw [hi]; simp⟩
+  · intro g personsIds kvs buf buf' e h
+    obtain ⟨acc, hf, hk, _, _, hids, ⟨own, _, hm, hr⟩, _⟩ := addGroupEntity_ok h
+    obtain ⟨⟨_, _, hta⟩, _, _, _⟩ := groupLoop_ok kvs _ acc hf
+    have hleft : acc.toAlloc = leftOut g personsIds kvs := by rw [hta]; rfl
+    refine ⟨hk, by rw [hids, hleft], ?_, ?_, ?_⟩
+    · unfold Ent.count; rw [hids, hleft]; simp
+    · rw [hm]; exact (applyM_length _ _).1
+    · rw [hr]; exact (applyM_length _ _).2
+  · intro g personsIds e h
+    unfold addDefaultGroupEntity at h
+    cases hr : g.flatRoles.head? with
+    | none => rw [hr] at h; cases h
+    | some r0 => rw [hr] at h; cases h; exact ⟨rfl, rfl, rfl, r0, rfl, rfl⟩
+
+/-- **C12_membership_roles.**  If a group kind is accepted then
+(1) the persons listed by its instances are pairwise distinct and declared;
+(2) the `t`-th person listed under role `r` of an instance belongs to that instance's group, with
+the role `r` — or its `t`-th sub-role when `r` has sub-roles;
+(3) a person left out belongs to the group found under the person's own id (the fresh group
+appended for that person when no declared group has that id — see `C12_own_group`), with the
+first role of the kind. -/
+theorem C12_membership_roles (sys : Sys) (dp : Option String) (g : GroupKind) (personsIds : List String)
+    (hpn : personsIds.Nodup) (kvs : List (DKey × Doc)) (buf buf' : Buffer) (e : Ent)
+    (h : addGroupEntity sys dp g personsIds (.obj kvs) buf = .ok (e, buf')) :
+    ((listedPersons g kvs).Nodup ∧ ∀ p ∈ listedPersons g kvs, p ∈ personsIds) ∧
+    (∀ (gk : DKey) (ikvs : List (DKey × Doc)) (r : Role) (t : Nat) (pid : String),
+      (gk, Doc.obj ikvs) ∈ kvs → r ∈ g.roles →
+      (strictSyntax ((lookupS r.docKey ikvs).getD (.arr []))).strs[t]? = some pid →
+      e.memb[personsIds.idxOf pid]? = some ((kvs.map (fun kv => kv.1.text)).idxOf gk.text) ∧
+      e.roles[personsIds.idxOf pid]? = some (r.roleAt t)) ∧
+    (∀ pid ∈ leftOut g personsIds kvs,
+      e.memb[personsIds.idxOf pid]? = some (e.ids.idxOf pid) ∧
+      ∃ r0, g.flatRoles.head? = some r0 ∧ e.roles[personsIds.idxOf pid]? = some r0) := by
+  obtain ⟨acc, hf, hk, _, _, hids, ⟨own, hown, hm, hr⟩, _⟩ := addGroupEntity_ok h
+  obtain ⟨⟨hnd, hmem, hta⟩, hmws, _, _⟩ := groupLoop_ok kvs _ acc hf
+  have hleft : acc.toAlloc = leftOut g personsIds kvs := by rw [hta]; rfl
+  simp only [List.nil_append] at hmws
+  -- the targets of all membership writes are pairwise distinct
+  have hownp : own.map (·.pidx) = (acc.toAlloc).map (fun p => personsIds.idxOf p) := by
+    rcases hown with ⟨hl, rfl⟩ | ⟨r0, _, rfl⟩
+    · simp [hl]
+    · unfold ownMWrites; rw [List.map_map]; rfl
+  have hallnd : ((acc.mws ++ own).map (·.pidx)).Nodup := by
+    rw [List.map_append, hmws, loopMWrites_pidx, hownp, ← List.map_append]
+    apply nodup_map_idxOf
+    · rw [List.nodup_append]
+      refine ⟨hnd, ?_, ?_⟩
+      · rw [hta]; exact List.Nodup.sublist List.filter_sublist hpn
+      · intro a ha b hb e
+        subst e
+        rw [hta, List.mem_filter] at hb
+        have : (kvs.flatMap (instListed g)).contains a = true := by simpa using ha
+        rw [this] at hb
+        exact absurd hb.2 (by decide)
+    · intro p hp
+      rcases List.mem_append.mp hp with hp | hp
+      · exact (hmem p hp).2
+      · rw [hta, List.mem_filter] at hp; exact hp.1
+  have hlistedmem : ∀ p ∈ listedPersons g kvs, personsIds.idxOf p < personsIds.length :=
+    fun p hp => List.idxOf_lt_length_of_mem (hmem p hp).2
+  refine ⟨⟨hnd, fun p hp => (hmem p hp).2⟩, ?_, ?_⟩
+  · intro gk ikvs r t pid hkv hrm hstr
+    let rd : Role × Doc := (r, strictSyntax ((lookupS r.docKey ikvs).getD (.arr [])))
+    have hrd : rd ∈ roleDocs g ikvs := List.mem_map.mpr ⟨r, hrm, rfl⟩
+    have hpidmem : pid ∈ rd.2.strs := List.mem_of_getElem? hstr
+    have hlisted : pid ∈ listedPersons g kvs := by
+      apply List.mem_flatMap.mpr
+      refine ⟨(gk, Doc.obj ikvs), hkv, ?_⟩
+      unfold instListed listedIn
+      simp only [Doc.asObj?, Option.getD_some]
+      exact List.mem_flatMap.mpr ⟨rd, hrd, hpidmem⟩
+    let w : MWrite := ⟨personsIds.idxOf pid, (kvs.map (fun kv => kv.1.text)).idxOf gk.text, r.roleAt t⟩
+    have hw : w ∈ acc.mws ++ own := by
+      apply List.mem_append_left
+      rw [hmws]
+      apply List.mem_flatMap.mpr
+      refine ⟨(gk, Doc.obj ikvs), hkv, ?_⟩
+      unfold instMWrites
+      simp only [Doc.asObj?, Option.getD_some]
+      exact List.mem_flatMap.mpr ⟨rd, hrd, mem_roleMWrites personsIds _ rd t pid hstr⟩
+    have := applyM_mem personsIds.length (acc.mws ++ own) hallnd w hw (hlistedmem pid hlisted)
+    rw [hm, hr]
+    exact this
+  · intro pid hpid
+    rw [← hleft] at hpid
+    have hne : acc.toAlloc ≠ [] := fun e' => by rw [e'] at hpid; cases hpid
+    rcases hown with ⟨hl, _⟩ | ⟨r0, hr0, hownr⟩
+    · exact absurd hl hne
+    · let w : MWrite := ⟨personsIds.idxOf pid, e.ids.idxOf pid, r0⟩
+      have hw : w ∈ acc.mws ++ own := by
+        apply List.mem_append_right
+        rw [hownr]
+        exact List.mem_map.mpr ⟨pid, hpid, rfl⟩
+      have hpm : pid ∈ personsIds := by rw [hta, List.mem_filter] at hpid; exact hpid.1
+      have := applyM_mem personsIds.length (acc.mws ++ own) hallnd w hw (List.idxOf_lt_length_of_mem hpm)
+      rw [hm, hr]
+      exact ⟨this.1, r0, hr0, this.2⟩
+
+/-- **C12_own_group.**  A person left out of a group kind whose id is not the id of a declared group
+of that kind is the only member of a fresh group appended after the declared ones; different
+persons left out get different groups.  (When a declared group has the id of the person, the
+code — and the model — put the person into that declared group: finding F-C12i; see
+`C12_own_group_collision`.) -/
+theorem C12_own_group (sys : Sys) (dp : Option String) (g : GroupKind) (personsIds : List String)
+    (hpn : personsIds.Nodup) (kvs : List (DKey × Doc)) (buf buf' : Buffer) (e : Ent)
+    (h : addGroupEntity sys dp g personsIds (.obj kvs) buf = .ok (e, buf'))
+    (pid : String) (hleft : pid ∈ leftOut g personsIds kvs)
+    (hfresh : pid ∉ kvs.map (fun kv => kv.1.text)) :
+    e.memb[personsIds.idxOf pid]? = some (kvs.length + (leftOut g personsIds kvs).idxOf pid) ∧
+    kvs.length ≤ kvs.length + (leftOut g personsIds kvs).idxOf pid ∧
+    e.ids[kvs.length + (leftOut g personsIds kvs).idxOf pid]? = some pid ∧
+    (∀ q ∈ personsIds, q ≠ pid →
+      e.memb[personsIds.idxOf q]? ≠ some (kvs.length + (leftOut g personsIds kvs).idxOf pid)) := by
+  obtain ⟨_, hids, _, _, _⟩ := (C12_entities sys dp).2.1 g personsIds kvs buf buf' e h
+  obtain ⟨⟨hnd, hlm⟩, hdecl, hown⟩ := C12_membership_roles sys dp g personsIds hpn kvs buf buf' e h
+  have hidx : e.ids.idxOf pid = kvs.length + (leftOut g personsIds kvs).idxOf pid := by
+    rw [hids, List.idxOf_append]; simp [hfresh, Nat.add_comm]
+  have hlt : (leftOut g personsIds kvs).idxOf pid < (leftOut g personsIds kvs).length :=
+    List.idxOf_lt_length_of_mem hleft
+  refine ⟨by rw [← hidx]; exact (hown pid hleft).1, Nat.le_add_right _ _, ?_, ?_⟩
+  · rw [hids, List.getElem?_append_right (by simp)]
+    simp only [List.length_map, Nat.add_sub_cancel_left]
+    rw [List.getElem?_eq_getElem hlt, List.getElem_idxOf hlt]
+  · intro q hq hne hcontra
+    by_cases hql : q ∈ leftOut g personsIds kvs
+    · have hq' := (hown q hql).1
+      rw [hq'] at hcontra
+      have hqi : e.ids.idxOf q = e.ids.idxOf pid := by rw [hidx]; exact Option.some.inj hcontra
+      have hqm : q ∈ e.ids := by rw [hids]; exact List.mem_append_right _ hql
+      have hpm : pid ∈ e.ids := by rw [hids]; exact List.mem_append_right _ hleft
+      exact hne (idxOf_inj_of_mem hqm hpm hqi)
+    · -- q is listed by some instance: its group index is below the number of declared groups
+      have hqlisted : q ∈ listedPersons g kvs := by
+        unfold leftOut at hql
+        rw [List.mem_filter] at hql
+        have : ¬ ((!(listedPersons g kvs).contains q) = true) := fun hc => hql ⟨hq, hc⟩
+        simpa using this
+      obtain ⟨kv, hkv, hin⟩ := List.mem_flatMap.mp hqlisted
+      unfold instListed listedIn at hin
+      obtain ⟨rd, hrd, hqs⟩ := List.mem_flatMap.mp hin
+      obtain ⟨r, hr, rfl⟩ := List.mem_map.mp hrd
+      obtain ⟨t, hget⟩ := List.getElem?_of_mem hqs
+      cases hobj : kv.2.asObj? with
+      | none =>
+        rw [hobj] at hqs
+        simp [roleDocs, lookupS, strictSyntax, Doc.strs, Doc.asArr?] at hqs
+      | some ikvs =>
+        have hkv' : (kv.1, Doc.obj ikvs) ∈ kvs := by
+          have : kv = (kv.1, Doc.obj ikvs) := by
+            obtain ⟨k1, d⟩ := kv
+            cases d <;> simp [Doc.asObj?] at hobj
+            subst hobj; rfl
+          rw [← this]; exact hkv
+        rw [hobj] at hget
+        simp only [Option.getD_some] at hget
+        have := (hdecl kv.1 ikvs r t q hkv' hr hget).1
+        rw [this] at hcontra
+        have hlt' : (kvs.map (fun kv => kv.1.text)).idxOf kv.1.text < kvs.length := by
+          have : kv.1.text ∈ kvs.map (fun kv => kv.1.text) := List.mem_map.mpr ⟨kv, hkv, rfl⟩
+          simpa using List.idxOf_lt_length_of_mem this
+        have := Option.some.inj hcontra
+        omega
+
 end OFCore.Bld
